@@ -1435,3 +1435,113 @@ func ruleU8(r *Run) {
 		r.Ok("statements that drop the result of a function without effects", 0, "none")
 	}
 }
+
+// ---------------------------------------------------------------------------------------------------
+
+func init() {
+	register("G64", "the options of a method may be absent: core.Method.Options() returns nil for the missing-method handlers (the suite asserts it), so nothing is called on what it returns without a nil test - a chained call (m.Options().Get(..)) or a call on the local it was assigned to that is neither under `local != nil` nor behind `if local == nil { local = <non-nil> }`. Under the timeout plugin every call served by a missing-method handler ended in a nil-pointer panic instead of the handler's result", 1, ruleG64)
+}
+
+func ruleG64(r *Run) {
+	p := r.P
+	n := 0
+	p.EachFunc(func(pkg *packages.Package, fd *ast.FuncDecl) {
+		if !strings.HasPrefix(p.RelPkg(pkg.Types), "rpc") {
+			return
+		}
+		info := pkg.TypesInfo
+		isOptions := func(e ast.Expr) bool {
+			c, ok := ast.Unparen(e).(*ast.CallExpr)
+			if !ok || refName(methodName(c)) != "Options" || len(c.Args) != 0 {
+				return false
+			}
+			// the method of the interface core.Method (no static callee) or of one of its implementations
+			var f types.Object
+			if se, isSel := ast.Unparen(c.Fun).(*ast.SelectorExpr); isSel {
+				if s := info.Selections[se]; s != nil {
+					f = s.Obj()
+				}
+			}
+			if f == nil || f.Pkg() == nil || !strings.HasSuffix(f.Pkg().Path(), "rpc/core") {
+				return false
+			}
+			sig, _ := f.Type().(*types.Signature)
+			return sig != nil && sig.Results().Len() == 1 && strings.HasSuffix(sig.Results().At(0).Type().String(), "core.Dict")
+		}
+		parents := parentMap(fd.Body)
+		// locals that hold the options
+		holds := map[types.Object]bool{}
+		ast.Inspect(fd.Body, func(m ast.Node) bool {
+			if as, ok := m.(*ast.AssignStmt); ok && len(as.Lhs) == len(as.Rhs) {
+				for i, rhs := range as.Rhs {
+					if isOptions(rhs) {
+						if o := identObj(info, as.Lhs[i]); o != nil {
+							holds[o] = true
+						}
+					}
+				}
+			}
+			return true
+		})
+		k := 0
+		ast.Inspect(fd.Body, func(m ast.Node) bool {
+			c, ok := m.(*ast.CallExpr)
+			if !ok {
+				return true
+			}
+			sel, ok := ast.Unparen(c.Fun).(*ast.SelectorExpr)
+			if !ok {
+				return true
+			}
+			chained := isOptions(sel.X)
+			o := identObj(info, sel.X)
+			if !chained && (o == nil || !holds[o]) {
+				return true
+			}
+			n++
+			k++
+			key := fmt.Sprintf("options tested against nil in %s #%d", p.DeclName(fd), k)
+			if chained {
+				r.Viol(key, c.Pos(), "`"+types.ExprString(c.Fun)+"` is called on what Options() returns without a nil test: for a call served by a missing-method handler that is a nil Dict, and the call ends in a nil-pointer panic instead of the handler's result")
+				return true
+			}
+			good := false
+			for _, f := range collectFacts(parents, c) {
+				if be, ok := f.e.(*ast.BinaryExpr); ok && identObj(info, be.X) == o {
+					if id, ok := ast.Unparen(be.Y).(*ast.Ident); ok && id.Name == "nil" && (!f.neg && be.Op == token.NEQ || f.neg && be.Op == token.EQL) {
+						good = true
+					}
+				}
+			}
+			// ... or repaired in front of the use: if local == nil { local = <something that is not nil> }
+			ast.Inspect(fd.Body, func(q ast.Node) bool {
+				ifs, ok := q.(*ast.IfStmt)
+				if !ok || ifs.End() > c.Pos() || ifs.Else != nil {
+					return true
+				}
+				be, ok := ast.Unparen(ifs.Cond).(*ast.BinaryExpr)
+				if !ok || be.Op != token.EQL || identObj(info, be.X) != o {
+					return true
+				}
+				if id, ok := ast.Unparen(be.Y).(*ast.Ident); !ok || id.Name != "nil" {
+					return true
+				}
+				for _, s := range ifs.Body.List {
+					if as, ok := s.(*ast.AssignStmt); ok && len(as.Lhs) == 1 && len(as.Rhs) == 1 && identObj(info, as.Lhs[0]) == o {
+						if id, isNil := ast.Unparen(as.Rhs[0]).(*ast.Ident); !isNil || id.Name != "nil" {
+							if !isOptions(as.Rhs[0]) {
+								good = true
+							}
+						}
+					}
+				}
+				return true
+			})
+			r.Check(good, key, c.Pos(), "under "+o.Name()+" != nil (or behind its replacement when nil)", "`"+types.ExprString(c.Fun)+"` is called on the options of the method without a nil test: for a call served by a missing-method handler Options() is nil and the call ends in a nil-pointer panic instead of the handler's result")
+			return true
+		})
+	})
+	if n == 0 {
+		r.Undec("calls on the options of a method", 0, "none found")
+	}
+}
